@@ -33,6 +33,7 @@ structure Mon where
   dropped : List (BId × EId) := []      -- events a run loop had taken when it was stopped / cancelled: never processed
   wiAccepted : List (Nat × List EId) := []      -- per blocked wait_until_idle caller: events accepted by its bus before the call
   stopped : List BId := []              -- buses whose stop() has returned
+  rlPos : List (BId × Nat) := []        -- per bus: the highest enqueue position whose processing a run loop has begun
   rlCancelledBy : List BId := []        -- buses whose run-loop task was cancelled from outside (until a new one is created)
   expSince : List (Nat × List EId) := []        -- per pending expect(): events of its bus begun since the call, in order
   expHandlers : List (Nat × List Reg) := []     -- per pending expect(): the bus's handler registry before the call
@@ -237,12 +238,24 @@ def Mon.step (m : Mon) (w : World) (l : Label) (w' : World) : Mon × List Vio :=
      | .rl _ => ({ m with dropped := m.dropped ++ [(b, e)], ended := m.ended ++ [(b, e)] }, [])   -- run loop cancelled by stop()
      | _ => ({ m with aborted := m.aborted ++ [(b, e)], ended := m.ended ++ [(b, e)] }, []))
   | .peBegin p b e =>
+    -- position, in the bus's enqueue order, of the occurrence of `e` whose processing begins now
+    let k := (m.begun.filter (· == (b, e))).length
+    let pos : Option Nat := (((w.bus b).enq.zipIdx.filter (fun (x : EId × Nat) => x.1 == e)).map (fun (x : EId × Nat) => x.2))[k]?
+    let top : Option Nat := (m.rlPos.find? (fun (x : BId × Nat) => x.1 == b)).map (fun (x : BId × Nat) => x.2)
+    let outOfOrder : Bool := match p, pos, top with
+      | .rl _, some n, some t => decide (n < t)
+      | _, _, _ => false
+    let m := match p, pos with
+      | .rl _, some n => { m with rlPos := (m.rlPos.filter (fun (x : BId × Nat) => x.1 != b)) ++ [(b, max n (top.getD 0))] }
+      | _, _ => m
     ({ m with begun := m.begun ++ [(b, e)],
               expSince := m.expSince.map fun (x, l) =>
                 match w.waiter x with
                 | .expecting b' _ _ _ _ _ => if b' == b then (x, l ++ [e]) else (x, l)
                 | _ => (x, l) },
      (if !C02.beginOrder w p b e then v "C02" "beginOrder" ["C02-inv"] s!"bus {b}: {e} begins inline while the run loop holds an earlier event" else []) ++
+     -- the run loop(s) of a bus begin events in the order they were enqueued
+     (if outOfOrder then v "C02" "runLoopOrder" [] s!"bus {b}: the run loop begins event {e} (enqueue position {pos}) after having begun position {top}" else []) ++
      -- (a cancelled run-loop task may still receive the item of its pending get(), but it never processes it)
      (match p with
       | .rl b' => if m.rlCancelledBy.contains b' then
@@ -462,7 +475,10 @@ def Mon.rest (m : Mon) (w : World) : List Vio :=
     (if treeDone w e && !(w.ev e).signal then v "C03" "doneNotSignalled" hs s!"event {e}" else []) ++
     (if m.everTimeout && !((w.ev e).status == .completed && (w.ev e).signal) then
        v "C10" "notCompletedAfterTimeout" hs s!"event {e}" else []) ++
-    (if !(w.ev e).signal && hs.isEmpty then v "C03" "neverCompleted" [] s!"event {e}" else [])) ++
+    (if !(w.ev e).signal && hs.isEmpty then v "C03" "neverCompleted" [] s!"event {e}" else []) ++
+    -- C11: a handler's exception must not keep its event from completing (no other recorded mechanism being involved)
+    (if !(w.ev e).signal && hs.isEmpty && (w.ev e).results.any (fun r => r.err == .handler) then
+       v "C11" "errorBlocksCompletion" [] s!"event {e} has a handler error result and never completes" else [])) ++
   ((insts w).flatMap fun i =>
     if isAwaiting (w.inst i).st then v "C04" "deadlock" [] s!"instance {i} still awaiting at rest" else []) ++
   -- a handler body that has ended (returned or raised) has its outcome recorded
